@@ -876,7 +876,7 @@ func runC13(args []string) error {
 	})
 	var importCases []string
 	for i, c := range cells {
-		refOK := c.key != ""
+		refOK := c.ipath != "unsafe" && c.ipath != "syscall" && c.ipath != "os/exec"
 		in := map[string]any{"kind": "import", "form": c.form, "path": c.ipath}
 		cid := newID(in)
 		importCases = append(importCases, fmt.Sprintf("(%d%%N, %s, %s, %s, %s)", cid, c.form, coqStr(c.ipath), coqBool(cres[i].ok), coqBool(refOK)))
